@@ -92,6 +92,7 @@ func (m *MonShadow) Name() string { return m.Prop + "-shadow" }
 
 func (m *MonShadow) Init(s *Sim) {
 	opts := s.Opts
+	opts.AppDir = "" // a second instance never shares the first one's app DB directory
 	opts.Dir = ""
 	opts.Wrap = nil
 	m.N = NewNode(opts)
